@@ -1,16 +1,86 @@
 import copy
 
+import numpy as np
+
 from .base import Prop
-from ..world import World
-from .. import oracles, gen
+from ..world import World, _c
+from ..peers import SimRHS, Boom, BudgetExceeded, WallTimeout
+from ..runner import absorb
+from ..refmodels import ref_rk_step, ref_split_step, stage_residual, eps_of, canon_bytes, bitwise_equal
+from .. import oracles, gen, seams
+
+
+class DirectWorld(World):
+    """One integrator object driven directly by a history of calls integrator(rhs, t, y, constants, h): contiguous steps,
+    restarts from unrelated states, steps of either sign, and rhs faults in between (the object keeps caches across calls)."""
+
+    def build(self):
+        import desolver as de
+        from ..world import method_class
+        self.rhs = SimRHS(self, self.problem)
+        self.diff = de.DiffRHS(self.rhs)
+        s = self.scn["system"]
+        cls = method_class(s["method"])
+        kw = dict(dtype=self.problem.dtype, rtol=s.get("rtol"), atol=s.get("atol"))
+        self.integ = cls(tuple(self.problem.shape), **kw)
+        self.records = []
+
+    def run(self):
+        import signal
+        old = signal.signal(signal.SIGALRM, self._alarm)
+        signal.alarm(int(self.wall_s))
+        seams.CURRENT = self
+        try:
+            self.op_index = -1
+            self.op_counts = {}
+            self.build()
+            dtype = self.problem.dtype
+            consts = dict(self.scn["system"].get("constants") or {})
+            t_cur = np.asarray(self.scn["system"]["t0"], dtype=dtype)
+            y_cur = self.problem.y0()
+            for i, op in enumerate(self.scn["ops"]):
+                self.op_index = i
+                self.op_counts = {}
+                self.calls = []
+                if op.get("from") == "state":
+                    t_cur = np.asarray(op["t"], dtype=dtype)
+                    y_cur = np.asarray(op["y"], dtype=np.float64).astype(dtype).reshape(self.problem.shape)
+                h = np.asarray(op["h"], dtype=dtype)
+                n0 = len(self.icalls)
+                rec = {"op": i, "t": _c(t_cur), "y": _c(y_cur), "h": _c(h), "exc": None, "contiguous": op.get("from") != "state"}
+                try:
+                    out = self.integ(self.diff, t_cur, y_cur, consts, h)
+                    new_dt, (dT, dS) = out
+                    rec["dTime"], rec["dState"] = _c(dT), _c(dS)
+                    rec["icall"] = [c for c in self.icalls[n0:] if c["depth"] == 0][-1]
+                    t_cur = t_cur + dT
+                    y_cur = y_cur + dS
+                    self.top_icalls_done = self.top_icalls_done
+                except (BudgetExceeded, WallTimeout):
+                    raise
+                except KeyboardInterrupt as e:
+                    rec["exc"] = e
+                except Exception as e:
+                    rec["exc"] = e
+                self.records.append(rec)
+                self.digest.update(("direct|%d|%s|" % (i, type(rec["exc"]).__name__)).encode())
+                if rec.get("dState") is not None:
+                    self.digest.update(canon_bytes(rec["dState"]))
+        finally:
+            seams.CURRENT = None
+            signal.alarm(0)
+            signal.signal(signal.SIGALRM, old)
+        return self
 
 
 class C02(Prop):
     pid = "C02"
-    quick = {"seeds": 120, "wall_cap": 90, "chunk": 4}
-    thorough = {"seeds": 2400, "wall_cap": 1500, "chunk": 8}
+    quick = {"seeds": 300, "wall_cap": 90, "chunk": 4}
+    thorough = {"seeds": 6000, "wall_cap": 1500, "chunk": 8}
     level = "fault_enumeration"
-    rule = ("per seed one base scenario: an implicit method (16 classes; float64 -> MINPACK path, longdouble -> built-in dogleg path; FD or user Jacobian; "
+    rule = ("every third seed: one integrator OBJECT driven directly by a history of 3-9 calls integrator(rhs, t, y, constants, h) - contiguous steps, "
+            "restarts from unrelated states, h of either sign, optional rhs fault in the middle of a call - each returned increment compared with the "
+            "reference step (the object keeps caches between calls).  Other seeds: per seed one base scenario: an implicit method (16 classes; float64 -> MINPACK path, longdouble -> built-in dogleg path; FD or user Jacobian; "
             "Newton-cap and retry-cap knobs) or an explicit/splitting method on a random smooth program.  For implicit bases the fault-free run is "
             "executed once to count its stage solves, then ONE DERIVED CASE PER STAGE-SOLVE INDEX n is run with a solver-seam fault placed on solve n "
             "(kinds cycle through forced non-convergence, LinAlgError from the seam, MINPACK failure -> fallback chain, NaN from the stage function), "
@@ -24,7 +94,98 @@ class C02(Prop):
     def monitors(self, scn):
         return [oracles.StepValidity("C02")]
 
+    def gen_direct(self, seed):
+        r = gen.sub(seed, "direct")
+        rp = gen.sub(seed, "problem")
+        fams = r.choice([["explicit_fixed"], ["explicit_adaptive"], ["explicit_adaptive"], ["splitting"], ["implicit_fixed", "implicit_adaptive"]])
+        method = gen.pick_method(r, fams)
+        dtype = r.choice(["float64"] * 5 + ["float32", "longdouble"])
+        want = {"separable"} if gen.method_family(method) == "splitting" else None
+        prob = gen.gen_problem(rp, dtype=dtype, want=want)
+        N = int(np.prod(prob["shape"]))
+        rtol = atol = None
+        if gen.is_adaptive(method) or gen.is_implicit(method):
+            rtol, atol = gen.tolerances(r, method, dtype)
+        t0 = gen.rnd(r, -5, 5, 3)
+        ops = []
+        for j in range(r.randint(3, 9)):
+            h = float("%.4g" % (r.choice([1, 1, -1]) * 10 ** r.uniform(-2.5, -0.5)))
+            x = r.random()
+            if j > 0 and x < 0.4:
+                y = [gen.rnd(r, -1.2, 1.2, 3) for _ in range(N)]
+                if prob["family"] == "logistic":
+                    y = [gen.rnd(r, 0.1, 0.9, 3) for _ in range(N)]
+                ops.append({"from": "state", "t": gen.rnd(r, -5, 5, 3), "y": y, "h": h})
+            else:
+                ops.append({"from": "cont", "h": h})
+        scn = {"v": 1, "seed": seed, "profile": "C02", "direct": True, "problem": prob,
+               "system": {"t0": t0, "tf": t0 + 1.0, "dt": 0.1, "method": method, "rtol": rtol, "atol": atol, "dense": False, "jac": "none",
+                          "constants": {"k": r.choice([1.0, 1.0, gen.rnd(r, 0.5, 1.5, 3)])}},
+               "knobs": {}, "events": [], "ops": ops, "faults": []}
+        rf = gen.sub(seed, "faults")
+        if rf.random() < 0.35:
+            scn["faults"].append({"op": rf.randrange(len(ops)), "seam": "rhs", "at": rf.randrange(1, 30), "kind": "raise"})
+        return scn
+
+    def run_direct(self, scn, res):
+        P = "C02"
+        w = DirectWorld(scn, monitors=[])
+        try:
+            w.run()
+        finally:
+            absorb(res, w)
+            res["digest"] = w.hexdigest()
+        V = res["violations"]
+        consts = dict(scn["system"].get("constants") or {})
+        f = lambda t, y: w.problem.f(t, y, **consts)
+        done = 0
+        for rec in w.records:
+            if rec["exc"] is not None:
+                injected = any(rec["exc"] is x or rec["exc"].__cause__ is x for x in w.raised)
+                if not injected and type(rec["exc"]).__name__ != "FailedToMeetTolerances":
+                    V.append({"property": P, "oracle": "C02.direct_call_raises", "op": rec["op"], "detail": "integrator call raised %s: %s" % (type(rec["exc"]).__name__, str(rec["exc"])[:100])})
+                continue
+            done += 1
+            c = rec["icall"]
+            integ = c["integ"]
+            h = rec["dTime"]
+            y0, t0 = rec["y"], rec["t"]
+            eps = eps_of(y0.dtype)
+            tag = "contiguous" if rec["contiguous"] else "restart from an unrelated state"
+            if c["kind"] == "split":
+                dy_ref, scale = ref_split_step(integ, f, t0, y0, h)
+                bound = 64 * integ.tableau_intermediate.shape[0] * eps * max(scale, 1e-300)
+                err = float(np.max(np.abs(dy_ref - rec["dState"])))
+                if err > bound:
+                    V.append({"property": P, "oracle": "C02.split_step_formula", "op": rec["op"], "detail": "direct call %d (%s, h=%r): |dy - composition| = %.3e > %.3e" % (rec["op"], tag, float(h), err, bound)})
+            elif c["kind"] == "rk" and not c["implicit"]:
+                dy_ref, K, scale = ref_rk_step(integ, f, t0, y0, h)
+                L = w.problem.lipschitz(**consts)
+                amp = (1.0 + abs(float(h)) * L) ** min(integ.stages, 8)
+                bound = 64 * integ.stages * eps * max(scale, 1e-300) * amp
+                err = float(np.max(np.abs(dy_ref - rec["dState"])))
+                res["ratios"]["C02.rk_step_formula_direct"] = max(res["ratios"].get("C02.rk_step_formula_direct", 0), err / bound)
+                if err > bound:
+                    V.append({"property": P, "oracle": "C02.rk_step_formula", "op": rec["op"], "detail": "direct call %d (%s, h=%r, %s): |dy - h*sum(b k)| = %.3e > %.3e" % (rec["op"], tag, float(h), c["cls"], err, bound)})
+            elif c["kind"] == "rk":
+                K = c["stages"]
+                resid = stage_residual(np.asarray(integ.tableau_intermediate), f, t0, y0, h, K)
+                desired = 0.5 * abs(float(integ.atol) + float(np.max(np.abs(float(integ.rtol) * y0))))
+                kmax = float(np.max(np.abs(K))) if K.size else 0.0
+                bound = 10 * desired + 256 * eps * (kmax + 1.0)
+                if resid > bound:
+                    V.append({"property": P, "oracle": "C02.implicit_stage_residual", "op": rec["op"], "detail": "direct call %d (%s, h=%r, %s): stage residual %.3e > %.3e" % (rec["op"], tag, float(h), c["cls"], resid, bound)})
+                last = c["attempts"][-1] if c["attempts"] else None
+                if last is not None and last["solves"] and not last["solves"][-1].get("success", False):
+                    V.append({"property": P, "oracle": "C02.accepted_unconverged", "op": rec["op"], "detail": "direct call %d returned a step whose stage solve reported failure" % rec["op"]})
+        res["nontrivial"] = done >= 2 and (not scn.get("faults") or bool(w.fired))
+        fam = gen.method_family(scn["system"]["method"])
+        res["state_keys"] = [repr(("direct", fam, scn["problem"]["dtype"], bool(w.fired), any(not r_["contiguous"] for r_ in w.records)))]
+        return w
+
     def generate(self, seed, tier):
+        if seed % 3 == 2:
+            return [self.gen_direct(seed)]
         base = gen.gen_scenario(seed, "C02")
         out = [base]
         if not gen.is_implicit(base["system"]["method"]):
@@ -67,7 +228,14 @@ class C02(Prop):
             out.append(c)
         return out
 
+    def facts(self, scn, viol):
+        f = super().facts(scn, viol)
+        f["direct"] = bool(scn.get("direct"))
+        return f
+
     def run(self, scn, res):
+        if scn.get("direct"):
+            return self.run_direct(scn, res)
         w = super().run(scn, res)
         if scn.get("faults"):
             res["nontrivial"] = bool(res["nontrivial"] and w.fired)
